@@ -242,6 +242,31 @@ func (l *Loop) exits() [][2]*ssa.BasicBlock {
 	return out
 }
 
+// leftOnlyAtHeader: the loop visits every element — no break, return, goto or panic leaves it from the body.
+func (l *Loop) leftOnlyAtHeader() bool {
+	for _, ex := range l.exits() {
+		if ex[0] != l.Header {
+			return false
+		}
+	}
+	for b := range l.Blocks {
+		if len(b.Succs) == 0 {
+			return false // return or panic inside the loop
+		}
+	}
+	return true
+}
+
+// loopWithHeader returns the loop of fn whose header is b.
+func loopWithHeader(fn *ssa.Function, b *ssa.BasicBlock) *Loop {
+	for _, l := range loopsOf(fn) {
+		if l.Header == b {
+			return l
+		}
+	}
+	return nil
+}
+
 // boundedKind classifies a loop as structurally bounded: "range-map", "range-slice", "counted-up",
 // "counted-down", or "" when no such argument applies.
 func (l *Loop) boundedKind() (kind string, why string) {
